@@ -180,7 +180,7 @@ CONFIG.rule = ("op lines from one PRNG (VERIF_SEED): one signature (hashlib-buil
                "builder operations on it (prepend a local aggregation chain that fits or not, change the root level), getters, log-level changes 0..5, "
                "parsing and verifying other (consistent and inconsistent) signatures in the same context. After every verification the executor asks the "
                "same question of a fresh parse in a fresh context. Oracle: every serialization equals the input octets (canonical inputs) and all "
-               "serializations of one history agree; every verdict equals its fresh twin; model comparison of every verdict the model determines.")
+               "serializations of one history agree; every verdict equals its fresh twin; model comparison of every verdict the model determines. Also inside a history: an extension that SUCCEEDS (honest reply through the file transport, with / without a publication record; source unchanged, result carries the record), the publications file replaced behind an unchanged URL with a cache lifetime of 0, signatures whose content is 0xfffd..0xffff octets, every second fresh context at another log level.")
 CONFIG.trusted_base = [
     "Lean 4.33.0 kernel; axioms propext, Classical.choice, Quot.sound only",
     "the object model (Model/SigObject.lean): the kept element tree is only read by serialize / clone; the one piece of state a verification leaves "
